@@ -527,7 +527,7 @@ def instance_cases(draw: Any, sizes: tuple = SIZES) -> dict:
         else free_setting(n, rounds))
     return {"n": n, "rounds": rounds, "st": sett, "dist": dm["dist"],
             "teams": draw(team_names(n)),
-            "name": draw(st.sampled_from(["gen", "g1", "x_y", "circ4"])),
+            "name": draw(st.sampled_from(["gen", "g1", "x_y"])),
             "dcls": dm["cls"], "sym": dm["sym"]}
 
 
